@@ -117,6 +117,9 @@ def honest(name, M, tol=1e-9):
     return False
 
 
+VEC_CLASSES = ("Affine", "Similarity", "Rotation", "Translation", "UniformScale", "NonUniformScale")
+
+
 class World:
     """Real objects mirroring the model's `tr`, with the model's expected effective maps.
     Pool objects are built lazily (an object never touched is trivially unchanged)."""
@@ -193,7 +196,23 @@ class World:
             elif op == "before_inplace":
                 A.compose_before_inplace(B)
             elif op == "after_inplace":
-                A.compose_after_inplace(B)
+                # the vector spelling of the same call (compose_after_from_vector_inplace) for operands of one
+                # family class, on every other eligible step: a.compose_after_inplace(a.from_vector(b.as_vector()))
+                v = None
+                if (self.meta[a]["cls"] == self.meta[b]["cls"] and self.meta[a]["cls"] in VEC_CLASSES
+                        and (a + b + len(self.objs)) % 2 == 0):
+                    try:
+                        v = np.array(B.as_vector(), dtype=float)
+                    except NotImplementedError:
+                        v = None
+                if v is None:
+                    A.compose_after_inplace(B)
+                else:
+                    try:
+                        A.compose_after_from_vector_inplace(v)
+                        notes.append("vector form of compose_after_inplace")
+                    except NotImplementedError:
+                        A.compose_after_inplace(B)
             elif op == "pinv":
                 res = A.pseudoinverse()
             else:
